@@ -163,9 +163,40 @@ func genC19ProductDests(g *gen) {
 	}
 }
 
+// results are tensors of their own, also when nothing had to be done: Repeat with every count 1, Concat / Stack of a
+// single operand, a full-range slice materialised, Transpose with the identity - the result is then written in place,
+// or handed back to the pool and the pool is used; the operand must not notice
+func genC19Identities(g *gen) {
+	for _, dt := range []string{"f64", "i32", "u8"} {
+		for _, pool := range []string{"pool on", "pool off"} {
+			for _, mk := range []string{"repeat fn $0 0 1", "repeat meth $0 1 1", "repeat fn $0 0 1,1", "repeat fn $0 all 1", "concat fn 0 $0", "concat meth 1 $0",
+				"stack fn 0 $0", "clone $0", "mat $0", "safeT $0 0,1", "apiTranspose $0 0,1", "reshape1"} {
+				sh := "2,3"
+				if strings.HasSuffix(mk, "all 1") {
+					sh = "4"
+				}
+				for _, after := range [][]string{{"memset $1", "dump $0"}, {"un neg $1 unsafe", "dump $0"}, {"bin add fn $1 #k3 unsafe", "dump $0"},
+					{"ret $1", fmt.Sprintf("new %s %s C", dt, sh), "memset $2", "dump $0", "gc", fmt.Sprintf("new %s 2,2 C", dt), "T $3 1,0", "dump $0"},
+					{"setat $0 " + map[bool]string{true: "1", false: "0,1"}[sh == "4"], "dump $1"}} {
+					if mk == "reshape1" {
+						continue
+					}
+					if strings.HasPrefix(mk, "repeat fn $0 0 1,1") && sh != "2,3" {
+						continue
+					}
+					steps := []string{"vset=2", pool, fmt.Sprintf("new %s %s C", dt, sh), mk, "dump $1"}
+					steps = append(steps, after...)
+					g.emit(steps...)
+				}
+			}
+		}
+	}
+}
+
 func genC19(g *gen) {
 	genC19Products(g)
 	genC19ProductDests(g)
+	genC19Identities(g)
 	nprog := 400
 	maxLen := 40
 	if g.thorough() {
